@@ -45,7 +45,7 @@ MIN_COUNTERS = {
               'exit_fault_blocks_checked': 200, 'literal_int_targets': 300,
               'blocks_held_open_checked': 15, 'alive_ticks_inside_open_blocks': 15,
               'clumped_blocks_checked': 5, 'stream_cases_checked': 40,
-              'destinations_checked': 50_000, 'node_ids_judged': 20_000,
+              'op:Synth.seti': 1500, 'destinations_checked': 50_000, 'node_ids_judged': 20_000,
               'histories_with_node_id_wrap_configuration': 500,
               'stream_cases_with_chunks_inside_block': 15,
               'stream_cases_with_chunks_outside_block': 15,
@@ -58,7 +58,7 @@ MIN_COUNTERS = {
                  'exit_fault_blocks_checked': 5000, 'literal_int_targets': 5000,
                  'blocks_held_open_checked': 300, 'alive_ticks_inside_open_blocks': 300,
                  'clumped_blocks_checked': 100, 'stream_cases_checked': 1000,
-                 'destinations_checked': 1_000_000, 'node_ids_judged': 500_000,
+                 'op:Synth.seti': 30_000, 'destinations_checked': 1_000_000, 'node_ids_judged': 500_000,
                  'histories_with_node_id_wrap_configuration': 10_000,
                  'stream_cases_with_chunks_inside_block': 400,
                  'stream_cases_with_chunks_outside_block': 400,
@@ -147,6 +147,10 @@ def run_shard(spec, acc):
         server = Server('vf17a', NetAddr('127.0.0.1', 57918), ServerOptions())
     else:
         server = Server.default
+    why = c17_exec.define_seti_defs(None, c17_gen.SETI_DEFS)
+    if why:
+        acc.mark_inconclusive('seti definitions: ' + why)
+        return
     cap = c17_exec.Capture(mode, main, background=kind == 'rtalive')
     ledger = c17_exec.Ledger()
     plain_addr = server.addr
@@ -257,6 +261,8 @@ def run_shard(spec, acc):
                 acc.count('histories_client_nonzero')
         for a in stats['add_actions']:
             acc.count(f'add_action:{a}')
+        if stats.get('seti'):
+            acc.count('histories_with_seti')
         if stats.get('dict_with_sequence_value'):
             acc.count('histories_with_dict_sequence_value')
         if acc.want_sample() and 4 <= len(flat) <= 9 and special and frees:
